@@ -453,6 +453,7 @@ def run(ctx):
     dunder_algebra(ctx)
     dunder_sub.subclass_dunders(ctx)
     dunder_sub.transpose_adjoint(ctx)
+    dunder_sub.subclass_products(ctx)
     dunder_sub.blocked_to_dense(ctx)
     blocks.block_bookkeeping(ctx)
     blocks.packing_offsets(ctx)
